@@ -23,7 +23,11 @@ GroupOfAction(s, a) ==
 
 \* accumulator: successful pauses since the daily counter was last reset, the stored reset stamp, and the *time at which* the
 \* counter was last reset (a reset is an event: the step at which the stored stamp changes or the daily count falls back)
-C15Acc0 == [pauses |-> 0, reset |-> BZero, have |-> FALSE, at |-> BZero, haveAt |-> FALSE]
+\* ... and the latest start any protocol-wide pause ever had (what a group's users may be held to, whatever the group's copy says)
+C15Acc0 == [pauses |-> 0, reset |-> BZero, have |-> FALSE, at |-> BZero, haveAt |-> FALSE, lastStart |-> BZero, haveStart |-> FALSE]
+C15LastStart(acc, p) ==
+  IF PFlag(p) THEN [s |-> IF acc.haveStart THEN BMax(acc.lastStart, p.start) ELSE p.start, have |-> TRUE]
+  ELSE [s |-> acc.lastStart, have |-> acc.haveStart]
 C15ResetEvent(acc, pre, e, post) ==
   \/ (acc.have /\ post.fee.panic.reset # acc.reset)
   \/ (Has(pre.fee, "panic") /\ post.fee.panic.daily < pre.fee.panic.daily)
@@ -34,7 +38,8 @@ C15AccNext(acc, pre, e, post) ==
            changed == C15ResetEvent(acc, pre, e, post)
            n0 == IF changed \/ ~acc.have THEN 0 ELSE acc.pauses
        IN [pauses |-> n0 + (IF e.ev = "panic_pause" /\ Ok(e) THEN 1 ELSE 0), reset |-> r, have |-> TRUE,
-           at |-> IF changed THEN post.clock.ts ELSE acc.at, haveAt |-> acc.haveAt \/ changed]
+           at |-> IF changed THEN post.clock.ts ELSE acc.at, haveAt |-> acc.haveAt \/ changed,
+           lastStart |-> C15LastStart(acc, post.fee.panic).s, haveStart |-> C15LastStart(acc, post.fee.panic).have]
 
 C15(pre, e, post, acc, line) ==
   IF ~Has(post.fee, "panic") \/ ~Has(pre.fee, "panic") THEN TRUE ELSE
@@ -73,6 +78,16 @@ C15(pre, e, post, acc, line) ==
        LET g == GroupOfAction(pre, e.a) IN
        Chk("C15", "d_blocked_only_while_pause_in_force", line,
            g # "none" /\ Has(pre.groups, g) /\ InForce(pre.groups[g].panic_cache, now), [group |-> g, now |-> now])
+  \* ... judged on the protocol's own pauses, not on the group's copy: a user is held for "protocol paused" only within 30 minutes
+  \* of the start of some protocol-wide pause (a copy that was stamped later than the pause it copies would hold users longer)
+  /\ (e.ev \in FinancialOps /\ ~Ok(e) /\ e.err = "ProtocolPaused") =>
+       LET ls == C15LastStart(acc, pp) IN
+       Chk("C15", "d_held_only_within_30min_of_a_protocol_pause_start", line,
+           ls.have /\ BLt(now, BAdd(ls.s, PAUSE_SECS)), [now |-> now, last_pause_start |-> ls.s])
+  /\ (e.ev = "propagate_fee" /\ Ok(e) /\ Has(e.a, "group") /\ Has(post.groups, e.a.group) /\ PFlag(post.groups[e.a.group].panic_cache)) =>
+       LET ls == C15LastStart(acc, qp) IN
+       Chk("C15", "propagation_never_stamps_a_pause_later_than_it_started", line,
+           ls.have /\ BLe(post.groups[e.a.group].panic_cache.start, ls.s), [group |-> e.a.group, cache_start |-> post.groups[e.a.group].panic_cache.start])
 
 \* pause half of C14: while the (cached) pause is in force every financial instruction is refused
 C14Pause(pre, e, post, line) ==
